@@ -105,6 +105,29 @@ func rulesC16(c *Ctx) {
 				c.Check(derr != nil && hasAtom(guards, func(a Atom) bool { return true }) && decodeErrorReturns(th, g, v, derr, hv), "handler:decode-error-skips-handler", th, call, "a decode error returns a tool error without calling h")
 			}
 		}
+		// the decode may sit in a generic helper behind the handler (decodeToolInput[In](input)): there the target is a
+		// variable of a type parameter
+		for _, g0 := range c.pkgClosure(th) {
+			if g0 == th || g0 == th.Root() {
+				continue
+			}
+			for _, call := range g0.AllCalls(g0.Body, true) {
+				fn := g0.Callee(call)
+				if fn == nil || fn.Name() != "Unmarshal" || len(call.Args) != 2 {
+					continue
+				}
+				u, ok := ast.Unparen(call.Args[1]).(*ast.UnaryExpr)
+				if !ok || u.Op != token.AND {
+					continue
+				}
+				if _, isTP := g0.TypeOf(u.X).(*types.TypeParam); !isTP {
+					continue
+				}
+				nDec++
+				c.touch(g0)
+				c.Check(g0.IsCallTo(call, unm), "handler:decode-is-case-sensitive", g0, call, "the typed input is decoded with internal/json.Unmarshal (case-sensitive, like the schema validation that preceded it); encoding/json would fold a differently-cased, unvalidated key into the typed field")
+			}
+		}
 		c.Pin("typed-input decode", nDec, 1)
 		// failure branch of validation returns an IsError result
 		for _, cv := range g.condVertices() {
